@@ -51,8 +51,12 @@ func (e expectation) String() string {
 	return e.Class
 }
 
-func inv(rule string) violation   { return violation{Rule: rule, Class: "code", Code: codes.InvalidArgument} }
-func unimpl(rule string) violation { return violation{Rule: rule, Class: "code", Code: codes.Unimplemented} }
+func inv(rule string) violation {
+	return violation{Rule: rule, Class: "code", Code: codes.InvalidArgument}
+}
+func unimpl(rule string) violation {
+	return violation{Rule: rule, Class: "code", Code: codes.Unimplemented}
+}
 func notFound(rule string) violation {
 	return violation{Rule: rule, Class: "code", Code: codes.NotFound}
 }
